@@ -20,6 +20,7 @@ from vf.memtls import CertFiles  # noqa: E402
 
 use_repo()
 from nauyaca.protocol.response import GeminiResponse  # noqa: E402
+from vf.responses import shaped  # noqa: E402
 from nauyaca.security.pyopenssl_tls import create_pyopenssl_server_context  # noqa: E402
 from nauyaca.security.tls import create_client_context, create_server_context  # noqa: E402
 from nauyaca.server import protocol as srvproto  # noqa: E402
@@ -141,7 +142,7 @@ def c06_live(rep, rnd, thorough):
     def handler(req):
         key = req.path.strip("/")
         b = bodies[key]
-        return GeminiResponse(status=20, meta="application/octet-stream" if isinstance(b, bytes) else "text/gemini", body=b if b else None)
+        return shaped(20, "application/octet-stream" if isinstance(b, bytes) else "text/gemini", b if b else None)
 
     servers = {bk: LiveServer(bk, handler, cert) for bk in ("stdlib", "pyopenssl")}
     try:
@@ -181,7 +182,7 @@ def c06_live(rep, rnd, thorough):
 
         def handler_meta(req):
             i, size = req.path.strip("/").split("-")[1:3]
-            return GeminiResponse(status=20, meta=metas[int(i)], body=bodies["m" + size])
+            return shaped(20, metas[int(i)], bodies["m" + size])
         for srv in servers.values():
             srv.handler = (lambda orig: (lambda req: handler_meta(req) if req.path.startswith("/meta-") else orig(req)))(srv.handler)
         for size in (1, 40, 20000):
